@@ -140,6 +140,10 @@ var targetByName = map[string]*target{}
 
 // readerTargets: the targets the header grammar is driven through the reader dimension with.
 var readerTargets []*target
+var isReaderTarget = map[*target]bool{}
+
+// tripleCombos: bytes.Reader unlimited, plain reader one byte per Read with a larger limit, ByteReader with data+EOF unlimited.
+var tripleCombos = []int{1, 3 + 3*chOne + 2, 21 + 3*chFullDataErr + 1}
 
 // classOf maps a target to the coarse class that appears in signatures: fine
 // enough to tell defects apart, coarse enough that one defect in (say) the uint
@@ -174,6 +178,7 @@ func init() {
 	initElemCtxs()
 	for _, n := range []string{"[]byte", "uint64", "*big.Int", "interface{}", "RawValue", "[]uint", "[][]byte", "tailS"} {
 		readerTargets = append(readerTargets, targetByName[n])
+		isReaderTarget[targetByName[n]] = true
 	}
 }
 
@@ -998,7 +1003,16 @@ func run(c *fw.Ctx) {
 			}
 			r.input(buf, targets, true, false)
 			for _, t := range targets {
-				r.readers(t, buf, everyCombo)
+				// every combination where the way of reading can matter (the input is a value of the type,
+				// or a prefix of one for the targets that read payloads); a covering triple otherwise
+				switch reason := t.schema.Accept(buf); {
+				case reason == "" || n <= 1:
+					r.readers(t, buf, everyCombo)
+				case reason == refrlp.RTruncated && isReaderTarget[t]:
+					r.readers(t, buf, everyCombo)
+				default:
+					r.readers(t, buf, tripleCombos)
+				}
 			}
 			nstr++
 		}
@@ -1153,7 +1167,8 @@ func run(c *fw.Ctx) {
 			return true
 		}
 		r.input(in, targets, len(in) < 400, huge && len(in) < 100)
-		if len(in) < 100 {
+		// (an unlimited Stream has to trust declared sizes: inputs declaring more than 64 KB stay with DecodeBytes)
+		if len(in) < 100 && declared <= 1<<16 {
 			for _, t := range readerTargets {
 				r.readers(t, in, diagCombos)
 			}
@@ -1256,7 +1271,7 @@ func main() {
 			"against 10 integer-like element types bare / in []T / struct{A,B T} / struct{A T; Tail []T}, the non-initial-state differential (every accepted pair is " +
 			"decoded again into destinations pre-filled from two schema-derived dirty values, via DecodeBytes and via one Stream with a reused variable; " +
 			"encoder: Encode/EncodeToReader/EncodeToBytes after another value), the reader-behaviour dimension (3 reader kinds x 6 chunking modes incl. data+EOF and (0,nil) " +
-			"x 3 input limits = 39 combinations on every string of length <= 2, every truncation of the struct encodings and 4095..9000-byte payloads with truncations; " +
+			"x 3 input limits = 39 combinations on every string of length <= 2 that is a value of the target or a prefix of one (a covering triple on the other rejected ones), every truncation of the struct encodings and 4095..9000-byte payloads with truncations; " +
 			"a covering subset of 14 on the grammar and field-substitution inputs; verdict and value must equal DecodeBytes), and encode->decode round trips over per-type value alphabets. " +
 			"Non-trivial = the input is well-formed canonical RLP (so the outcome depends on the target type) or the decoder accepted it, or a value round trip.",
 		Assumptions: []string{
